@@ -123,7 +123,7 @@ def run(ctx):
 
     # 3. M3: the well-known networks -> trace spec (verdict)
     tr = ctx.path("trace.ndjson")
-    ctx.run_bin(binary, ["slot-trace", "--seed", ctx.seed, "--random", 1500 if ctx.thorough else 40, "--out", tr])
+    ctx.run_bin(binary, ["slot-trace", "--seed", ctx.seed, "--random", 4000 if ctx.thorough else 40, "--out", tr])
     events = vlib.read_ndjson(tr)
     nets = [e["name"] for e in events if e["ev"] == "net"]
     if sorted(nets) != ["mainnet", "preprod", "preview", "testnet"]:
